@@ -46,7 +46,7 @@ const char *
 sanitize_utf8 (const char *text, size_t length)
 {
     int c = 0;          /* character */
-    int p = 0;          /* byte position of the character */
+    size_t p = 0;       /* byte position of the character */
     size_t l = 0;       /* byte length of the character */
     size_t pos = 0;     /* position in sanitized array */
     static char *sanitized = NULL;
